@@ -38,6 +38,8 @@ THEOREMS = [
     "C15_frontends_agree_cli_raw",
     "C15_frontends_agree_macro",
     "C15_frontends_agree_macro_order_dependent_refuted",
+    "C15_macro_crates_complete",
+    "C15_macro_never_recorded",
     "C15_cli_default_builder_on",
     "C15_no_write_on_failure",
     "C15_write_once_on_success",
@@ -65,7 +67,7 @@ ENV.pop("RUSTFLAGS", None)
 # withheld from / altered for ONE real front-end, which is what that front-end dropping or
 # mis-parsing the option would look like.  Values: cli-map-type-ignored, cli-no-builder-ignored,
 # cli-unknown-ignored, macro-derives-dropped, macro-patch-dropped, spec-rename-dropped, spec-star-is-never,
-# macro-impl-defaults-only-without-list.
+# macro-impl-defaults-only-without-list, macro-never-crates-dropped.
 EMU = os.environ.get("C15_EMULATE", "")
 
 
@@ -93,6 +95,8 @@ def emu_macro_opts(o):
         return dict(o, derives=[])
     if EMU == "macro-patch-dropped":
         return {k: v for k, v in o.items() if k != "patch"}
+    if EMU == "macro-never-crates-dropped":
+        return dict(o, crates=[c for c in o["crates"] if c["version"] != "!"])
     return o
 
 
@@ -449,6 +453,55 @@ def impls_case(rspecs, cspecs):
             "replace": {"Id": {"type": "crate::MyId", "specs": rspecs, "impls": None}},
             "convert": [{"schema": {"type": "string", "format": "x-token"}, "type": "crate::MyTok", "specs": cspecs,
                          "impls": None}]}
+
+
+# (schema, crate named by an x-rust-type in it, a version matching its requirement, one that does not)
+XRT_CRATES = [("xrt.json", "crate-o-types", "1.0.1", "2.0.0"), ("xrt.json", "base64", "0.21.7", "0.22.0"),
+              ("xrt.json", "my_util2", "0.5.0", "1.0.0"), ("x-rust-type.json", "std", "1.0.0", "2.0.0")]
+CRATE_KINDS = ["absent", "star", "match", "nomatch", "never", "match+rename", "never+rename", "star+rename"]
+POLICIES = [None, "generate", "allow", "deny"]
+
+
+def crate_setting(name, kind, vmatch, vno):
+    if kind == "absent":
+        return []
+    base = kind.split("+")[0]
+    c = {"name": name, "version": {"star": "*", "match": vmatch, "nomatch": vno, "never": "!"}[base]}
+    if kind.endswith("+rename"):
+        c["rename"] = "ren-x"
+    return [c]
+
+
+def crates_product(thorough, digits_ok):
+    """crates table entry {absent, *, matching, non-matching, !, with rename} x unknown_crates policy
+    {default, Generate, Allow, Deny} x schema {x-rust-type for the configured crate, only for other crates,
+    none}: a crate listed as `!` is NOT the same as an unlisted crate (rust_extension.rs), visible under Allow."""
+    out = []
+
+    def add(base, crates, pol):
+        o = {"struct_builder": False, "derives": [], "crates": crates, "short": False}
+        if pol:
+            o["unknown"] = pol
+        out.append((base, o))
+    for i, (base, name, vm, vn) in enumerate(XRT_CRATES):
+        if re.search(r"\d", name) and not digits_ok:
+            continue
+        full = thorough or i == 0
+        for kind in CRATE_KINDS:
+            for pol in POLICIES:
+                if full or (kind in ("never", "star", "never+rename") and pol in (None, "allow")):
+                    add(base, crate_setting(name, kind, vm, vn), pol)
+    # x-rust-type only for OTHER crates than the configured one; and no x-rust-type at all
+    for kind in ("never", "star", "match+rename"):
+        for pol in ("allow", "deny") if not thorough else POLICIES:
+            add("xrt.json", crate_setting("other_crate", kind, "1.0.0", "2.0.0"), pol)
+    for kind in ("never", "star+rename"):
+        for pol in (None, "allow"):
+            add("example.json", crate_setting("std", kind, "1.0.0", "2.0.0"), pol)
+    # two entries at once: a `!` crate next to a usable one
+    add("xrt.json", crate_setting("crate-o-types", "never", "", "") + crate_setting("x", "star", "", ""), "allow")
+    add("xrt.json", crate_setting("x", "never", "", "") + crate_setting("crate-o-types", "match+rename", "1.0.0", ""), "allow")
+    return out
 
 
 def gen_opts(rnd, schema, digits_ok, for_macro, macro_map_ok):
@@ -1005,7 +1058,7 @@ def check_three_frontends(ctx, rnd, digits_defect, findings, unlisted):
         ctx.oblige("macro parser model evaluates", False, str(e)[-1500:])
 
     # ---- option assignments
-    n_macro = 20 if quick else 70
+    n_macro_random = 8 if quick else 50
     n_cli_only = 24 if quick else 140
     cases = []
     # curated first (corpus): README examples and every option at least once
@@ -1033,10 +1086,12 @@ def check_three_frontends(ctx, rnd, digits_defect, findings, unlisted):
         ("impls.json", impls_case([["?", "Display"], ["", "Display"]], [["", "Display"], ["?", "Display"]])),
         ("impls.json", impls_case([["", "Hash"]], [])),
     ]
+    curated += crates_product(not quick, not digits_defect)
     for base, o in curated:
         o = dict(o)
         o.setdefault("short", False)
         cases.append({"schema": os.path.join(wdir, base), "o": o, "macro": not o.pop("cli_only", False)})
+    n_macro = len([c for c in cases if c["macro"]]) + n_macro_random
     while len([c for c in cases if c["macro"]]) < n_macro:
         s = rnd.choice(copies) if rnd.random() < 0.6 else rnd.choice(
             [os.path.join(wdir, b) for b in ("xrt.json", "example.json", "type-with-modified-generation.json", "maps.json",
@@ -1182,6 +1237,20 @@ def check_three_frontends(ctx, rnd, digits_defect, findings, unlisted):
     ctx.evaluations += len(mcases)
     ctx.samples = [{"schema": os.path.basename(c["schema"]), "options": c["o"],
                     "cli_flags": cli_flags(c["o"]) if c["cli_text"] is not None else None} for c in mcases[:10]]
+    product_cov = {}
+    for c in mcases:
+        txt = open(c["schema"]).read()
+        xnames = set(re.findall(r'"crate"\s*:\s*"([^"]+)"', txt))
+        pol = c["o"].get("unknown") or "default"
+        ents = c["o"]["crates"] or [None]
+        for e in ents:
+            if e is None:
+                key = "absent|policy=%s|schema=%s" % (pol, "has-x-rust-type" if xnames else "none")
+            else:
+                vc = e["version"] if e["version"] in ("!", "*") else "version"
+                rel = "for-this-crate" if e["name"] in xnames else ("for-other-crates" if xnames else "none")
+                key = "%s%s|policy=%s|schema=%s" % (vc, "+rename" if e.get("rename") else "", pol, rel)
+            product_cov[key] = product_cov.get(key, 0) + 1
     dist = {}
     for c in cases:
         for k in ("map_type", "unknown", "patch", "replace", "convert"):
@@ -1200,7 +1269,8 @@ def check_three_frontends(ctx, rnd, digits_defect, findings, unlisted):
         "cli_runs": n_cli, "cli_skipped_digit_names(known finding)": n_cli_skipped, "cli_vs_builder_compared": len(cmp_idx),
         "macro_cases": len(mcases), "all_three": n_three, "items_compared_cli": n_items, "distribution": dist,
         "macro_map_type_usable": macro_map_ok,
-        "macro_cases_with_map_type": len([c for c in mcases if c["o"].get("map_type")])}
+        "macro_cases_with_map_type": len([c for c in mcases if c["o"].get("map_type")]),
+        "crates_x_policy_product": product_cov}
 
     # ---- duplicate original crate names in the macro's `crates` map
     mt = vlib.run_bin("c15", [{"op": "modtext", "path": exp_path, "modules": ["dup%d_macro" % k for k in range(n_dup)]}])[0]
